@@ -20,7 +20,7 @@ from ..gen import depgraphs as G
 
 PID = "C31"
 
-MANIFEST_PENDING = {
+MANIFEST = {
     "category": "proof",
     "technique": "Coq proof over a model of lockfile.rs + model/implementation correspondence on local git repositories",
     "text": "Theorems (all worlds, tables, declaration graphs; version order and `matches` arbitrary): a locked release that "
@@ -36,6 +36,7 @@ MANIFEST_PENDING = {
 }
 
 KNOWN_KEY = "update-moves-dependency-to-sibling-lock"
+N_GENERATED = {"quick": 36, "thorough": 700}      # generated scenarios per tier (the corpus always runs first)
 
 ERRMAP = {"VersionNotFound": "EVersionNotFound", "ProjectNotFound": "EProjectNotFound",
           "UnpublishedDependency": "EUnpublishedDependency", "NameConflict": "ENameConflict",
@@ -388,6 +389,14 @@ def judge(sc, out):
                     moved.append(v)
                 else:
                     bad.append((v[0], v[1], i))
+        # the modified flag (for update_lockfile: whether Veryl.lock was rewritten) says whether the set of
+        # locked projects (uuids) changed
+        if k in ("update", "flow") and old is not None and (k == "update" or disk is not None):
+            changed = set(l["uuid_method"] for l in locks_of(old)) != set(l["uuid_method"] for l in locks_of(tab))
+            reported = r["modified"] if k == "update" else r["file_changed"]
+            if bool(reported) != changed:
+                bad.append(("modified-flag-wrong", "%s reports modified=%s but the set of locked projects %s"
+                            % (k, reported, "changed" if changed else "did not change"), i))
         # determinism: the same `new` twice
         if k == "new":
             if prev_new is not None and json.dumps(prev_new, sort_keys=True) != json.dumps(tab, sort_keys=True):
@@ -550,9 +559,27 @@ def judge_error(ids, info, r, old, force):
 
 # ------------------------------------------------------------------------------------ running
 
+SCENARIO_TIMEOUT = 2400     # seconds per scenario; a scenario takes ~1 s on an idle machine, minutes under heavy load
+
+
+def run_one(binary, line):
+    """one scenario = one harness process (a hang or crash is attributed to exactly that scenario)"""
+    import subprocess
+    try:
+        p = subprocess.run([binary, "scenario"], input=line + "\n", capture_output=True, text=True, timeout=SCENARIO_TIMEOUT)
+    except subprocess.TimeoutExpired:
+        return "TIMEOUT after %d s" % SCENARIO_TIMEOUT
+    out = p.stdout.strip().splitlines()
+    if out:
+        return out[0]
+    return "CRASH rc=%d %s" % (p.returncode, (p.stderr.strip().splitlines() or [""])[-1][:300])
+
+
 def impl_eval(binary, scs, scratch):
+    from concurrent.futures import ThreadPoolExecutor
     lines = [G.scenario_line(sc, os.path.join(scratch, "s%d" % i)) for i, sc in enumerate(scs)]
-    outs = C.run_lines(binary, lines, args=("scenario",), timeout=1500, nshards=min(C.NCPU, max(1, len(lines))))
+    with ThreadPoolExecutor(max_workers=C.NCPU) as ex:
+        outs = list(ex.map(lambda ln: run_one(binary, ln), lines))
     res = []
     for ln in outs:
         if ln.startswith("OK "):
@@ -653,10 +680,10 @@ def _run(res, tier, seed, replay, proved, binary, scratch):
         return res.finish()
 
     rng = random.Random(seed * 104729 + 31)
-    n = 36 if tier == "quick" else 700
+    n = N_GENERATED["quick" if tier == "quick" else "thorough"]
     # what the real semver crate says about the generator's version / requirement pools
     probe = {"dir": os.path.join(scratch, "probe"), "backend": "command", "versions": G.VERSIONS, "reqs": G.REQS, "ops": []}
-    pr = C.run_lines(binary, [json.dumps(probe)], args=("scenario",), nshards=1)[0]
+    pr = run_one(binary, json.dumps(probe))
     matrix = None
     if pr.startswith("OK "):
         sv = json.loads(pr[3:])["semver"]
